@@ -1,0 +1,16 @@
+//go:build verif
+
+package character
+
+import "github.com/simimpact/srsim/pkg/key"
+
+// VerifCatalog returns a copy of the character catalog (verification harness only).
+func VerifCatalog() map[key.Character]Config {
+	mu.Lock()
+	defer mu.Unlock()
+	out := make(map[key.Character]Config, len(characterCatalog))
+	for k, v := range characterCatalog {
+		out[k] = v
+	}
+	return out
+}
